@@ -117,24 +117,23 @@ def check(ctx):
 
     # ---- C05.3 node positions
     if 'Node' in enc_terms:
-        val, site = enc_terms['Node']
+        val, site, enc_body, enc_use = enc_terms['Node']
         inner = m_call(val, name='into', trait='Into')
         arr = inner[0] if inner else val
         good = False
         if arr[0] == 'agg' and arr[1] == codec.CBORCASE and arr[2] == 'Array':
             v = arr[3][0]
-            alts = phi_alts(v)
-            first = [a for a in alts if a[0] == 'list']
-            push = [a for a in alts if a[0] == 'mut' and call_name(a) == 'push']
-            if len(first) == 1 and len(push) == 1 and len(alts) == 2 and len(first[0][1]) == 1:
-                s0 = m_call(first[0][1][0], name='untagged_cbor')
-                pe = m_call(push[0][3][1], name='untagged_cbor')
-                def node_field(t, f):
-                    t = strip_sites(t)
-                    return t[0] == 'vfield' and t[2] == 'Node' and t[3] == f
+            # any construction of the element vector (vec!+push loop, Vec::new+push/extend, once().chain().map().collect(), ..)
+            # is compared in its sequence normal form: [one(untagged(subject)), each(untagged(elem(assertions)))]
+            parts = seq_norm(v, enc_body, enc_use)
+            def node_field(t, f):
+                t = strip_sites(t)
+                return t[0] == 'vfield' and t[2] == 'Node' and t[3] == f
+            if parts is not None and len(parts) == 2 and parts[0][0] == 'one' and parts[1][0] == 'each':
+                s0 = m_call(parts[0][1], name='untagged_cbor')
+                pe = m_call(parts[1][1], name='untagged_cbor')
                 if s0 is not None and pe is not None and node_field(s0[0], 'subject') and pe[0][0] == 'elem' and node_field(pe[0][1], 'assertions'):
                     good = True
-            # accepted equivalent: chain/once/map/collect forms are IDIOM-UNKNOWN until reviewed
         if good:
             ctx.ok('C05.3', site, 'writer: [untagged(subject)] then untagged(a) for a in assertions (stored order)', sample=fmt(val))
         else:
